@@ -232,6 +232,9 @@ class Attribute(_BaseAttribute):
                 raise Attribute.TypeNotMatchingError(value, datatype, self.type)
             self._data[key] = value
 
+    def __contains__(self, key):
+        return key in self._data
+
     def _expand(self, n : int):
         """Expands the storage capacity of the attributes. Adds `n` to self.n_elem
         Parameters:
@@ -285,6 +288,10 @@ class ArrayAttribute(_BaseAttribute):
         self._check_default_value_type()
         self._data = np.full((n_elem, elem_size), self.default_value, dtype= self.type.dtype)
     
+    def __contains__(self, key):
+        # every element of the container has a value (without this, 'key in attr' would compare key to the values)
+        return 0<=key<self.n_elem
+
     def _check_out_of_bounds(self,key):
         if key<0 or key>=self.n_elem:
             raise Attribute.OutOfBoundsError(key, self.n_elem)
